@@ -171,6 +171,8 @@ class Key(object):
     """A key object."""
 
     def __init__(self, key="C"):
+        if not is_valid_key(key):
+            raise NoteFormatError("unrecognized format for key '%s'" % (key,))
         self.key = key
 
         if self.key[0].islower():
